@@ -16,6 +16,7 @@ import (
 
 	"github.com/marekgalovic/anndb/cluster"
 	"github.com/marekgalovic/anndb/index"
+	"github.com/marekgalovic/anndb/index/space"
 	pb "github.com/marekgalovic/anndb/protobuf"
 	uuid "github.com/satori/go.uuid"
 )
@@ -25,6 +26,7 @@ var _ *cluster.Conn
 var _ *grpc.ClientConn
 var _ bytes.Buffer
 var _ index.Metadata
+var _ space.Space
 var _ sort.Interface
 var _ *raft.RaftGroup
 var _ wal.WAL
@@ -1700,16 +1702,15 @@ var _ uuid.UUID
 // newDataset (assumed): builds the in-memory dataset from the decoded record; fails only on malformed partition ids
 // dependencies of newPartition (assumed): a new index is empty and configured with the package defaults; the WAL handle and the
 // logger are opaque here
-//@ func index.NewHnsw
-//@ props C14 C12
-//@ assume
-//@ trust defaults: NewHnsw configures ef, efConstruction and mMax0 from small package constants (newHnswConfig) and stores nothing
-//@ ensures [new-index] ret != nil && fresh(ret) && cfgSized(ret) && ret.len == 0 && ret.entrypoint == nil && wfShards(ret)
-//@ modifies nothing
+// a new index: the defaults of a configuration without options (ef 20, efConstruction 200, m 16, mMax 16, mMax0 32, simple
+// selection), sixteen shard maps of its own, nothing stored, the given dimension and metric; a partition's index gets the
+// dimension and the metric of its dataset's record
+// (index.newHnswConfig and index.NewHnsw are verified in package index)
 //@ func storage.newIndexFromDatasetProto
 //@ props C14 C12
-//@ assume
-//@ ensures [new-index] ret != nil && fresh(ret) && cfgSized(ret) && ret.len == 0
+//@ requires [record] dataset != nil
+//@ ensures [new-index] ret != nil && fresh(ret) && cfgSized(ret) && ret.len == 0 && ret.entrypoint == nil && wfShards(ret)
+//@ ensures [C14 C12 shape-of-the-record] ret.size == dataset.Dimension && (dataset.Space == 0 ==> istype(ret.space, *space.Euclidean)) && (dataset.Space == 1 ==> istype(ret.space, *space.Manhattan)) && (dataset.Space == 2 ==> istype(ret.space, *space.Cosine))
 //@ modifies nothing
 
 //@ func storage.newPartition
